@@ -424,7 +424,7 @@ def det_case(draw, atom_names=None, bound_kinds=None, max_atoms=2, int_ok=False,
     vtypes = ['C'] * n
     if int_ok:
         for j in range(n):
-            vtypes[j] = draw(st.sampled_from(['C', 'C', 'I', 'B']))
+            vtypes[j] = draw(st.sampled_from(['C', 'I', 'I', 'B'] if frac_int else ['C', 'C', 'I', 'B']))
     bounds = []
     for j in range(n):
         if vtypes[j] == 'B':
@@ -442,8 +442,12 @@ def det_case(draw, atom_names=None, bound_kinds=None, max_atoms=2, int_ok=False,
         kind = 'box' if bounded_by == 'box' else draw(st.sampled_from(kinds))
         if vtypes[j] == 'I' and kind in ('lb', 'ub', 'box'):
             b, xbar[j] = draw_bound(draw, kind, xbar[j])
-            if not (frac_int and draw(st.booleans())):
-                b = [b[0], None if b[1] is None else float(np.floor(b[1])), None if b[2] is None else float(np.ceil(b[2]))]
+            b = [b[0], None if b[1] is None else float(np.floor(b[1])), None if b[2] is None else float(np.ceil(b[2]))]
+            if frac_int and draw(st.booleans()):
+                # the integer witness stays inside: the bounds move inward by less than one
+                f1, f2 = draw(st.sampled_from([0.0, 0.3, 0.5, 0.7])), draw(st.sampled_from([0.0, 0.3, 0.5, 0.7]))
+                b = [b[0], None if b[1] is None else (b[1] + f1 if b[1] + f1 <= xbar[j] else b[1] - f1),
+                     None if b[2] is None else (b[2] - f2 if b[2] - f2 >= xbar[j] else b[2] + f2)]
         else:
             b, xbar[j] = draw_bound(draw, kind, xbar[j])
         bounds.append(b)
